@@ -35,6 +35,23 @@ LEVEL = {
     "C19": ("Theorems about the Markdown matcher model: header depth 1–6 + blank + keyword + ':' recognised with keyword/trimmed title/column; bullets; table indentation 2–5 and GFM separators; backtick tags with columns. Tie: complete enumeration dialect × keyword × depth/bullet × indentation.", ""),
 }
 
+LEVEL.update({
+    "C01": ("Theorems (all source texts, both modes): outcome form of a rejected parse (1 error in stop mode; 1..cap+1 distinct messages in collecting mode; cap+1 = 11 on the regenerated table), termination of the parse and look-ahead loops (the fuel outcome is unreachable), every error line within 1..lines+1, stream envelope kinds, totality of compile on rectangular documents, and the linear bound calls <= workPerToken(T)*(lines+1) (= 20 per line, computed from the regenerated table) under kernel-checked queue facts. Not proved: builder crash-freedom on arbitrary input (the model represents Python run-time errors explicitly and the tie compares them). Per-call cost is outside the model: every document of the run is first parsed in a child process under a watchdog together with inputs built to make each regular expression backtrack.",
+            "partial: C01_no_crash is decided by the correspondence only; filesystem overload of TokenScanner is known finding F4"),
+    "C03": ("Node-level theorems (field rules of every node kind, description joining and trimming characterised uniquely, children kept in insertion = source order, crashes only when a needed token/field is missing) and the whole-document composition over token trees: the builder's stack machine computes exactly the structural recursion astOf of the tree (error paths included), and for grammar-shaped trees (shape derived from ValidTree of the regenerated grammar by a kernel-checked fact) the element locations of the AST in source order equal the element-carrying leaves of the tree in order: every element once, nothing else. Tie: complete ASTs (minus locations/ids) of generated and corpus documents vs the model.",
+            "partial: the link from the imperative parse's operations to the token tree of its events is by the tie (events stream); C03_roundtrip not proved"),
+    "C11": ("Theorems: C11_pickle_ids (compiler draws consecutive ids, steps then pickle), builder node-level id theorems, and C11_ast_ids_canonical: for every grammar-shaped token tree the ids of the document, traversed in the canonical order of the property, are exactly n, n+1, ... (distinct, dense, canonical); C15_id_offset gives the shared-generator case. Tie/oracle: all ids vs the model; independent oracle on the implementation (distinct, 0..N-1, references resolve to nodes of the right kind); several sources through one stream.",
+            "the link from the imperative parse to the token tree is by the tie"),
+    "C15": ("Theorems: the matcher state stays consistent through every parse (invariant), reset makes a parse independent of everything the matcher was used for before (C15_used_equals_fresh for any history), the builder/queue/errors are fresh per parse, ids shift uniformly with the counter (parser, compiler, stream), generic frame lemma for arbitrary schedules and its instance for the parse loop, determinism. Tie (carries the weight for heap effects): all ordered pairs/triples of state-perturbing documents through one Parser+TokenMatcher vs fresh instances, one shared Compiler/TokenMatcher through long document sequences, random schedules of concurrent parses gated at every token read (with and without an explicit matcher).",
+            "heap aliasing and preemption inside a match call cannot be exhibited by a functional model"),
+    "C16": ("Per-line invariance theorems of the matcher model for the token it actually sees (CRLF for all 14 kinds, final newline, trailing blanks, indentation shifting only columns / tag-error column / the doc string's indent) under kernel-checked dialect facts and a proved separator invariant; kind-level whole-run theorems, generic in the table under kernel-checked facts: an inserted blank line adds exactly one build Empty, a comment before a structural line adds exactly one build Comment. Tie: metamorphic pairs on the implementation (LF/CRLF, final newline, trailing blanks, indentation, doc-string block indentation, blank line, comment line) at sampled admissible positions; file loading incl. BOM.",
+            "whole-document composition is by the tie; trailing blanks after a step line that is a keyword prefix is known finding F8 (the theorem carries the hypothesis StepTailFree)"),
+    "C17": ("Theorems: exact envelope list and counter for all 8 option combinations (accepted and rejected sources), source/uri/parseError fields, every envelope's JSON satisfies the written-out Cucumber Messages shape (Spec.wellShaped) incl. compiler output never having a Conjunction step type, locality and order of sources. Tie/oracle: sequences of sources x options vs the model, json round trip, shape validator, SourceEvents on files with CRLF/CR/BOM.",
+            "json.dumps is trusted"),
+    "C18": ("Theorems: C18_reads_in_order (the main loop reads the tokens of lines 1,2,3,... in order however often look-ahead moved them through the queue) and C18_accepted_sequence (for an accepted document the builder receives exactly one token per physical line, in order, with that line's text and number, then one EOF) from matcher determinism, dialect facts and kernel-checked queue facts of the regenerated table; partition (every token read is built xor reported unexpected); look-ahead conserves the queue. Tie: built tokens and line numbers vs the model; all tag/comment/blank runs <= L and long runs through the look-ahead queue; one Parser reused; corpus token listings.",
+            "the token listing format is compared by the tie and the corpus listings (a finite test)"),
+})
+
 TECH = "Lean 4 theorems about an executable model + correspondence check (model/spec vs real code, in-process)"
 
 
